@@ -137,7 +137,7 @@ func injectBuiltInProps(
 	injectProps(object.BuiltInBaseObj, toPairs(props.BaseObjProps(ctn)), baseObjNatives)
 	injectProps(object.BuiltInComparableObj, toPairs(props.ComparableProps(ctn)), comparableNatives)
 	injectProps(object.BuiltInDiamondObj, toPairs(props.DiamondProps(ctn)), diamondNatives, iterableNatives)
-	injectProps(object.BuiltInEitherObj, toPairs(props.EitherProps(ctn)), eitherNatives, wrappableNatives)
+	injectProps(object.BuiltInEitherObj, toPairs(props.EitherProps(ctn)), eitherNatives, wrappableNatives, toPairs(props.WrappableProps(ctn)))
 	injectProps(object.BuiltInEitherErrObj, toPairs(props.EitherErrProps(ctn)), eitherErrNatives)
 	injectProps(object.BuiltInEitherValObj, toPairs(props.EitherValProps(ctn)), eitherValNatives)
 	injectProps(object.BuiltInErrObj, toPairs(props.ErrProps(ctn)))
